@@ -319,6 +319,13 @@ def _run(sc: dict) -> Result:
                         res.bad(f"wrong_error:{type(root).__name__}", f"{root!r:.160} for a peer failing {reasons}")
                     else:
                         res.bad(f"wrong_error:{type(root).__name__}", f"{root!r:.160} for a peer failing {reasons}")
+                elif isinstance(err, ProxyError) or (isinstance(err, MaxRetryError) and isinstance(err.reason, ProxyError)):
+                    # the proxy did its part (every proxy in this check is healthy and trusted, the tunnel was established):
+                    # it is the destination that failed verification, and that is an SSLError, not "unable to connect to proxy"
+                    if fault_fired:
+                        res.probes["fault_error:ProxyError"] += 1
+                    else:
+                        res.bad("wrong_error:ProxyError", f"{err!r:.200} for a destination failing {reasons} behind a healthy proxy")
                 else:
                     res.probes["must_reject_held"] += 1
                 open_left = [s for s in w.sockets if not s.really_closed]
